@@ -26,6 +26,16 @@ mod store;
 #[path = "/repo/src/tlv.rs"]
 mod tlv;
 
+/// the wire codec is a private module of cln_plugin: include it (and what it needs) once more, directly
+mod wire {
+    #[path = "/repo/src/cln_plugin/options.rs"]
+    pub mod options;
+    #[path = "/repo/src/cln_plugin/messages.rs"]
+    pub mod messages;
+    #[path = "/repo/src/cln_plugin/codec.rs"]
+    pub mod codec;
+}
+
 mod kernels;
 mod fakenode;
 mod scen_height;
@@ -75,6 +85,7 @@ fn main() {
             v["task_panics"] = json!(PANICS.lock().unwrap().clone());
             v
         }
+        "codec" => kernels::run_codec(&input),
         "provider" => scen_provider::run(&input),
         "poll_loop" => scen_height::run_poll_loop(&input),
         k => kernels::run(k, &input),
